@@ -110,5 +110,25 @@ def run(ctx, rep):
             if code != 0:
                 rep.fail("oracle", "good-frames-not-applied", {"kind": name, "frame": bytes(f).hex(), "op": opname},
                          {"with_hostile": mixed[1], "good_only": goodonly[1]})
+    # ---- what a hostile-but-decodable frame leaves behind: every capabilities / properties / state frame of the sweeps answers one
+    # operation, then each operation runs against GOOD frames only - none may raise (e.g. on an emptied list of supported values)
+    later, lmeta = [], []
+    decodable = [(n, f) for n, f in frames if n.startswith(("caps-", "props-", "group-")) or n == "id-random"]
+    if not ctx.deep:
+        decodable = decodable[::2]
+    for k, (name, f) in enumerate(decodable):
+        first = (3, 0) if name.startswith("caps-") else (1, 0)
+        ex1 = [[f] if first == (3, 0) else [gstate, f]]
+        n1 = max(1, len(D.run_impl([first], ex1)[3]))           # requests the first operation makes (a second page, more queries)
+        for opname in (list(OPS)[k % 5], "refresh"):
+            later.append(([first, (OPS[opname], 0)], ex1 + [[]] * (n1 - 1) + [[gstate], [gprops], [gstate], [gstate]], k % 256))
+            lmeta.append((name, f, opname))
+    nl = ctx.n(600, 6000)
+    lres = D.compare(ctx, rep, later[:nl], tag="ops-after-hostile") + [D.run_impl(*c) for c in later[nl:]]
+    for (name, f, opname), c, r in zip(lmeta, later, lres):
+        rep.case(("later", opname, tuple(f)), "later-op:" + opname)
+        if r[0] != 0:
+            rep.fail("oracle", f"operation-raises:{opname}:{r[0]}:after-an-earlier-frame", {"kind": name, "earlier_frame": bytes(f).hex(), "ops": c[0]},
+                     {"exception_code": r[0]})
     rep.sample({"frame": bytes(frames[5][1]).hex(), "kind": frames[5][0]})
     rep.sample({"frame": bytes(frames[-20][1]).hex(), "kind": frames[-20][0]})
